@@ -162,7 +162,15 @@ func (rr *rxRun) diff(c *rxCase, api string, h []byte, want, got string, extra m
 	for k, v := range extra {
 		d[k] = v
 	}
-	rr.st.violate(violation{Kind: api, Case: c.idx, Detail: d, Sig: sigOf(api, c.pat, h) + " tags=" + strings.Join(c.tags, ","), Expected: want, Got: got})
+	rc := "api/" + stratOf(c)
+	if strings.HasPrefix(api, "nfa_ref") {
+		rc = "compiled-nfa-vs-regexp"
+	}
+	g := got
+	if len(g) > 80 {
+		g = g[:80]
+	}
+	rr.st.violate(violation{Kind: api, Case: c.idx, Detail: d, Sig: sigOf(api, c.pat, h) + " got=" + g, Expected: want, Got: got, RC: rc})
 }
 
 func stratOf(c *rxCase) string {
@@ -208,9 +216,14 @@ func cmdRx(args []string) int {
 	npat := fs.Int("patterns", 400, "number of patterns")
 	nhay := fs.Int("haystacks", 24, "haystacks per pattern")
 	corpus := fs.String("corpus", "/verif/corpus/patterns_harvested.txt", "pattern corpus")
-	modelPath := fs.String("model", "", "path of the extracted model driver (optional)")
+	modelPath := fs.String("model", "/verif/.work/bin/driver", "path of the extracted model driver (\"\" = none)")
 	statsPath := fs.String("stats", "stats.json", "stats output")
+	tier := fs.String("tier", "quick", "tier")
+	_ = fs.String("out", "", "unused")
 	fs.Parse(args)
+	if *tier == "thorough" && *npat == 400 {
+		*npat = 4000
+	}
 
 	st := newStats(*prop, *seed)
 	rr := &rxRun{prop: *prop, st: st, distinct: distinctSet{}}
